@@ -122,29 +122,6 @@ def dMeta (j : Json) : Except String XmlMeta := do
     wrappers := ← dList (dPair dStr dStr) (field j "wrappers")
   }
 
-def dFieldInfo (j : Json) : Except String FieldInfo := do
-  pure { name := ← dStr (field j "name"), init := ← dBool (field j "init"), hasDefault := ← dBool (field j "has_default") }
-
-def dClass (j : Json) : Except String ClassInfo := do
-  pure {
-    id := ← dStr (field j "id")
-    metas := ← dList (dPair dOptStr dMeta) (field j "metas")
-    mro := ← dList dStr (field j "mro")
-    bases := ← dList dStr (field j "bases")
-    fields := ← dList dFieldInfo (field j "fields")
-  }
-
-def dCtx (j : Json) : Except String Ctx := do
-  let dts ← dList (dPair dStr (fun x => match x with
-      | .str p => (dPT p).map some
-      | .null => pure none
-      | _ => .error "datatype")) (field j "datatypes")
-  pure {
-    classes := ← dList dClass (field j "classes")
-    xsiIndex := ← dList (dPair dStr (dList dStr)) (field j "xsi_index")
-    datatypes := dts
-  }
-
 partial def dVal (j : Json) : Except String Val :=
   match j with
   | .null => .ok .none
@@ -170,6 +147,32 @@ partial def dVal (j : Json) : Except String Val :=
     | _, _, _, _, .ok m => do
       pure (.attrs (← dList (dPair dStr dStr) m))
     | _, _, _, _, _ => (dPVal j).map .prim
+
+def dFieldInfo (j : Json) : Except String FieldInfo := do
+  let d ← match j.getObjVal? "default" with
+    | .ok v => (dVal v).map some
+    | .error _ => pure none
+  pure { name := ← dStr (field j "name"), init := ← dBool (field j "init"), default := d }
+
+def dClass (j : Json) : Except String ClassInfo := do
+  pure {
+    id := ← dStr (field j "id")
+    metas := ← dList (dPair dOptStr dMeta) (field j "metas")
+    mro := ← dList dStr (field j "mro")
+    bases := ← dList dStr (field j "bases")
+    fields := ← dList dFieldInfo (field j "fields")
+  }
+
+def dCtx (j : Json) : Except String Ctx := do
+  let dts ← dList (dPair dStr (fun x => match x with
+      | .str p => (dPT p).map some
+      | .null => pure none
+      | _ => .error "datatype")) (field j "datatypes")
+  pure {
+    classes := ← dList dClass (field j "classes")
+    xsiIndex := ← dList (dPair dStr (dList dStr)) (field j "xsi_index")
+    datatypes := dts
+  }
 
 partial def dTree (j : Json) : Except String Tree := do
   let kids ← asArr (field j "c")
